@@ -249,6 +249,30 @@ func vxC04Direct(rep *mc.Report, lo, hi, m int, mapName string) {
 			}
 		}
 	}
+	// a fan that is not never-stop and reports 0 RPM (no tach signal, or legitimately standing still at a low request): the
+	// steady target depends on the curve value and the limits only, so the request must settle at S[v] and stay there
+	if lo == 0 {
+		for _, v := range []int{0, 37, 128, 255} {
+			for _, s := range []int{0, 255} {
+				fy := vxNewFixRole(vxCfg{Kind: "hwmon", NeverStop: false, Min: lo, Max: hi, Map: mapName, Algo: algo, StartPwm: s, StartMode: 1}, "replay")
+				last := -999
+				for i := 0; i < bound+120; i++ {
+					o := fy.vxCycle(vxSym{Curve: v, Rpm: 0})
+					rep.Evaluations++
+					if o.Panic != "" || o.Err != nil {
+						rep.Violate(mc.Violation{Signature: "C04 cycle failed", Detail: fmt.Sprintf("fan reporting 0 RPM, not never-stop: %v %v", o.Panic, o.Err), Replay: vxC04Case{Cfg: cfg, V: v}})
+						return
+					}
+					if i > bound+2 && o.Req != S[v] {
+						rep.Violate(mc.Violation{Signature: "C04 request of a fan reporting 0 RPM (not never-stop) leaves the steady value " + rc,
+							Detail: fmt.Sprintf("limits [%d,%d] m=%d map=%s v=%d start %d: request %d at cycle %d (previous %d), steady value for this curve value is %d", lo, hi, m, mapName, v, s, o.Req, i, last, S[v]), Replay: vxC04Case{Cfg: cfg, V: v}})
+						return
+					}
+					last = o.Req
+				}
+			}
+		}
+	}
 }
 
 var vxC04Deadline time.Time
